@@ -8,7 +8,10 @@ Local Open Scope Z_scope.
 
 (* exceptions a translated method can raise; XCrash embeds the model's foreign exceptions *)
 Inductive pyexn :=
-| XOverflow | XZeroDiv | XNotImplemented | XAttribute | XValue | XCrash (c : crash_kind).
+| XOverflow | XZeroDiv | XNotImplemented | XAttribute | XValue | XCrash (c : crash_kind)
+(* own exception classes of lib/gettext.py and lib/intexpr.py (gen_plurals_src.py): PluralFormsSyntaxError or its subclass
+   PluralExpressionSyntaxError; intexpr.LexingError; intexpr.ParsingError *)
+| XPluralForms | XLexing | XParsing.
 
 (* the result of running a method body:
    SRet v  : `return v`
